@@ -371,7 +371,13 @@ class StmtMixin(object):
                 names.append(e.attr)
             else:
                 raise OutOfSubset("computed exception class in handler")
-        return any(exc_isinstance(ex.etype, n) for n in names)
+        if any(exc_isinstance(ex.etype, n) for n in names):
+            return True
+        if ex.etype == "CallbackError":
+            # a user callback may raise an instance of ANY exception class: whatever class a handler names,
+            # some callback exception is caught by it and some is not
+            return self.path.nondet("callback_exception_caught_by_" + "_".join(names))
+        return False
 
     def x_With(self, node, env):
         self.with_items(list(node.items), node.body, env)
